@@ -776,6 +776,16 @@ def check(program, rep):
     rep.guard("C07-R3", r3_payload, program, folder, rep)
     rep.guard("C07-R4", r4_addresses, program, folder, rep)
     rep.guard("C07-R5", r5_roles, program, rep)
+    # a reply is matched to its command by the per-connection sequence
+    # number (a late or duplicated reply of an earlier burst must not answer
+    # a later command): C06's rule, needed for "also when replies are lost,
+    # duplicated or reordered"
+    from . import C06
+
+    def seq_rule(program, rep, folder):
+        B = C06._Burst(program)
+        C06.r2_fresh(program, rep, B, folder)
+    rep.guard("C06-R2", seq_rule, program, rep, folder)
     rep.floor("C07-R1", 25)
     return finish(rep, program, EXPLANATION, NOT_DECIDED,
                   trusted=["slice-length and floor-division axioms of the "
